@@ -585,7 +585,7 @@ Definition run_rc (op : bytes) (args : list bytes) : bytes :=
   else bad.
 
 (* ---- keepalive (C15) ----
-   ka.run <timeout ms> <start ms> <event> ...   events: T.<ms>.<ok> tick | P.<ms> pong | R recovered | Q.<id>.<bodyhex> peer ping
+   ka.run <timeout ms> <start ms> <event> ...   events: T.<ms>.<ok> tick | P.<ms> pong | R.<ms> recovered | Q.<id>.<bodyhex> peer ping
    output: p<id> (ping, heartbeat id = id) | r (recycle) | s (skip) | e<id>:<bodyhex> (echo) joined by space *)
 Definition parse_kact (e : bytes) : option kact :=
   match e with
@@ -594,7 +594,7 @@ Definition parse_kact (e : bytes) : option kact :=
       if byte_eqb k "T"%byte then
         match parts with [t; ok] => obind (undec t) (fun t => obind (unbool ok) (fun ok => Some (KTick t ok))) | _ => None end
       else if byte_eqb k "P"%byte then match parts with [t] => option_map KPong (undec t) | _ => None end
-      else if byte_eqb k "R"%byte then Some KRecovered
+      else if byte_eqb k "R"%byte then match parts with [t] => option_map KRecovered (undec t) | _ => None end
       else if byte_eqb k "Q"%byte then
         match parts with [i; b] => obind (undec i) (fun i => obind (unhex b) (fun b => Some (KPeerPing i b))) | _ => None end
       else None
